@@ -256,7 +256,7 @@ theorem applyMode_wf {s : Srv} {k : Str} {sc sc' : SChan} (h : ChanWF s k sc) {c
           · cases ha
           · split at ha
             · cases ha
-              refine chanWF_setMode h _ _ (Or.inl ⟨?_, a, rfl, hc.2 a harg⟩)
+              refine chanWF_setMode h _ _ (Or.inl ⟨?_, a, rfl, hc a harg⟩)
               have : c.ch ∈ keyModes := by simpa using hkey
               simp [this]
             · split at ha
@@ -271,7 +271,7 @@ theorem applyMode_wf {s : Srv} {k : Str} {sc sc' : SChan} (h : ChanWF s k sc) {c
             · rename_i a harg
               split at ha
               · cases ha
-                refine chanWF_setMode h _ _ (Or.inl ⟨?_, a, rfl, hc.2 a harg⟩)
+                refine chanWF_setMode h _ _ (Or.inl ⟨?_, a, rfl, hc a harg⟩)
                 have : c.ch ∈ limitModes := by simpa using hlim
                 simp [this]
               · cases ha
